@@ -37,7 +37,11 @@ LEVEL_TEXT = ("Theorems (Coq): over the abstract order (no arithmetic law, valid
               "translated from the current source on every run: each Psi coefficient is -l (l_hat = l+1) or l+1 (l_hat = l-1) times the Y coefficient; "
               "under the three classical recurrences of Y_lm (premises) the summation loop of Vector_Spherical_Harmonics_Y, including the terms it skips, equals "
               "rhat * Y_lm component-wise; under the classical gradient identity (premise) Psi = r grad Y_lm and is tangential; if the scalar harmonics satisfy Y_{l,-m} = (-1)^m conj(Y_{l,m}) (premise), "
-              "both vector harmonics do, component by component (C17_vsh_conjugation, from the translated tables through the summation loops). NOT theorems: Dawson's 2e-7 on the large-argument branch |x| >= 0.2 and "
+              "both vector harmonics do, component by component (C17_vsh_conjugation, from the translated tables through the summation loops). T-tie, second part: Round, Dawson_Integral (static table as explicit state, both loops unrolled with the bound read from the source), Erfi and Inv_Erf (guards, lambda, bracket, accuracy handed to Find_Root) "
+              "are regenerated from the source on every run (Gen_C17_More.v) and proved equal to the hand models round / dawson_st / erfi / erfi_st / inv_erf for every arithmetic obeying the literal laws and every table "
+              "(C17_generated_round_dawson_erfi_inv_erf_are_model), so the Round clauses, Dawson's oddness / series accuracy / table independence and Inv_Erf's guards are also theorems about the generated terms "
+              "(C17_generated_round_clauses, C17_generated_dawson_clauses, C17_generated_inv_erf_guards); the generated terms are extracted and run against the library too (`gen` cases, bit-identical). "
+              "NOT theorems: Dawson's 2e-7 on the large-argument branch |x| >= 0.2 and "
               "Erfi's 1e-6 accuracy for all x, and Inv_Erf's 1e-4 on the doubles themselves (kernel-certified at sampled points by Coq-Interval against the integral "
               "definitions: |D - int_0^x exp(t^2-x^2)| <= 2e-7, |Erfi - erfi| <= 1e-6 |erfi|, erf(y-1e-4) < p < erf(y+1e-4): S3; and tested against an "
               "independent 50-digit reference, S4), conjugation symmetry of boost's Y_lm and that boost's Y_lm satisfies the recurrences (tested, S4; Spherical_Harmonics is a pass-through to boost: "
@@ -52,12 +56,14 @@ LEVEL_TEXT = ("Theorems (Coq): over the abstract order (no arithmetic law, valid
               "floating-point behaviour of Round (tested in every decade and every binade of the 600 decades, d = 1..7), and everything under a directed rounding mode set by the caller "
               "(fesetround upward / downward / toward zero: the model's float instance rounds to nearest, so those runs are judged by the predicates only, with every rounding bound doubled and the "
               "exact symmetries x -> -x relaxed to that bound, which is what the unchanged library satisfies).")
-LEVEL_NOTE = ("Coq 8.16.1 kernel; T-tie: tools/cxx2gallina.py regenerates coq/Gen_C17_Formulas.v from clang's AST of src/Special_Functions.cpp before the proofs are rebuilt; "
+LEVEL_NOTE = ("Coq 8.16.1 kernel; T-tie: tools/cxx2gallina.py regenerates coq/Gen_C17_Formulas.v and tools/cxx2gallina_C17.py (assignments as shadowing lets, counted loops unrolled, a static std::vector as explicit state, "
+              "a lambda as a Gallina function) regenerates coq/Gen_C17_More.v from clang's AST of src/Special_Functions.cpp before the proofs are rebuilt; the tie lemmas of the second file carry the literal laws "
+              "(nlit num den = num/den; proved for the reals, true of correctly rounded doubles) as a hypothesis; coverage/C17.md lists function by function what is generated, hand-modelled or only tested; "
               "C-tie: extraction (ExtrOcamlBasic only) run against the library; premises inside theorem statements: the three recurrences and the gradient identity of spherical harmonics, "
               "Find_Root's accuracy guarantee (C02); boost::math::spherical_harmonic, std::floor/log10/pow/exp/erf modelled by specification (same libm in the float instance); "
               "S3 uses Coq-Interval (primitive 63-bit integers through Bignums)")
 TOL = (1e-12, 0.0)
-TRUSTED = ["tools/cxx2gallina.py and clang 14's JSON AST (validated on every run by running the translated functions against the library)",
+TRUSTED = ["tools/cxx2gallina.py, tools/cxx2gallina_C17.py and clang 14's JSON AST (validated on every run by running the translated functions, Round / Dawson_Integral / Erfi / Inv_Erf included, against the library)",
            "boost::math::spherical_harmonic is trusted to be Y_lm (its recurrences/gradient identity are premises of the VSH theorems; tested in S4 for l <= 12)",
            "S3: Coq-Interval's `integral` tactic; the library's doubles enter as exact dyadic rationals IZR m * powerRZ 2 e",
            "S4 reference values: Python decimal (50 digits) power series of the integral of exp(t^2); bisection on math.erf/math.erfc for erfinv"]
@@ -72,7 +78,12 @@ def regenerate():
         ch = cxx2gallina.regenerate_c17(vbuild.REPO, COQ)
     except cxx2gallina.Unsupported as e:
         raise RuntimeError(f"tools/cxx2gallina.py cannot translate src/Special_Functions.cpp: {e}")
-    return "Gen_C17_Formulas.v regenerated from the current source" if ch else ""
+    import cxx2gallina_C17
+    try:
+        ch2 = cxx2gallina_C17.regenerate_more(vbuild.REPO, COQ)
+    except cxx2gallina.Unsupported as e:
+        raise RuntimeError(f"tools/cxx2gallina_C17.py cannot translate Round / Dawson_Integral / Erfi / Inv_Erf of src/Special_Functions.cpp: {e}")
+    return "; ".join(["Gen_C17_Formulas.v regenerated from the current source"] * bool(ch) + ["Gen_C17_More.v regenerated from the current source"] * bool(ch2))
 
 
 # ---------------------------------------------------------------- generators
@@ -293,7 +304,20 @@ def generate(rng, tier):
     cs += vsh_histories(rng, big)
     cs += branch_ladders(rng, big)
     cs += rounding_modes(rng, big, cs)
+    cs += generated_terms(rng, big, cs)
     return cs
+
+
+def generated_terms(rng, big, cs):
+    """gen <case>: requests of Round / Dawson_Integral / Erfi / Inv_Erf and Dawson / Erfi histories drawn from the cases generated so far, answered on the
+    model side by the terms regenerated from the C++ source on this run (Gen_C17_More.v) instead of the hand model"""
+    out = []; by_op = {}
+    for c in cs: by_op.setdefault(c.line.split()[0], []).append(c)
+    for op, n in {"round": 600, "dawson": 300, "erfi": 300, "inverf": 150, "spechist": 60}.items():
+        pool = by_op.get(op, [])
+        for c in rng.sample(pool, min(len(pool), n * (10 if big else 1))):
+            out.append(Case("gen " + c.line, ("gen",) + tuple(c.tags), c.tol))
+    return out
 
 
 NONREAL = [math.nan, math.inf, -math.inf]
@@ -571,6 +595,7 @@ def nontrivial(c, io):
 
 def split_fe(line):
     t = line.split()
+    if t[0] == "gen": t = t[1:]
     return (int(t[1]), t[2:]) if t[0] == "fe" else (0, t)
 
 
